@@ -278,9 +278,9 @@ def drive(prop, tier, seed, nshards):
             m['inconclusive'].append(
                 'contract %r was never evaluated' % cname)
     for q in getattr(mod, 'REQUIRED_REACH', []):
-        if not any(k.endswith(q) for k in m['reach']):
+        if not any(q in k for k in m['reach']):
             m['inconclusive'].append(
-                'anchored function %r was never entered' % q)
+                'no function matching %r of the anchored code was ever entered' % q)
 
     known = load_known()
     known_hits = {}
